@@ -944,7 +944,8 @@ func c09Outcomes(p *Prog, l *Ledger, r *c09Roles, wptr types.Type) {
 		// recording events: direct window-field stores, or calls of helpers that store the window field
 		type rec struct {
 			ins  ssa.Instruction
-			adds []string // names of window Add* methods feeding the recorded value
+			adds []string  // names of window Add* methods feeding the recorded value
+			val  ssa.Value // the stored window value (direct stores): resolved along each path
 		}
 		var recs []rec
 		for _, ins := range isWindowWrite(f) {
@@ -952,7 +953,7 @@ func c09Outcomes(p *Prog, l *Ledger, r *c09Roles, wptr types.Type) {
 			if ok, _ := c09EmptyWindow(p, r, st.Val, 1); ok {
 				continue
 			}
-			recs = append(recs, rec{ins, c09AddCalls(p, r, st.Val, f)})
+			recs = append(recs, rec{ins, c09AddCalls(p, r, st.Val, f), st.Val})
 		}
 		allInstrs(f, func(ins ssa.Instruction) {
 			call, ok := ins.(*ssa.Call)
@@ -977,7 +978,7 @@ func c09Outcomes(p *Prog, l *Ledger, r *c09Roles, wptr types.Type) {
 				}
 			}
 			if len(adds) > 0 {
-				recs = append(recs, rec{ins, adds})
+				recs = append(recs, rec{ins, adds, nil})
 			}
 		})
 		if len(recs) == 0 {
@@ -1004,14 +1005,21 @@ func c09Outcomes(p *Prog, l *Ledger, r *c09Roles, wptr types.Type) {
 						if !(rr.Op == token.GEQ || rr.Op == token.GTR) {
 							return false
 						}
+						// the threshold: a configuration field (never written after construction), whatever it is called
 						fr, _, isF := loadedField(strip(rr.Y, false))
-						return isF && types.Identical(fr.Type, recvT) && strings.Contains(strings.ToLower(fr.Name), "threshold")
+						_ = recvT
+						return isF && p.FieldImmutable(fr) && isIntegral(rr.Y.Type())
 					})
 					if !ok {
 						bad = append(bad, fmt.Sprintf("%s: a sample is recorded on a path that has not established rtt >= minRTTThreshold", p.At(rc.ins)))
 					}
 				}
-				for _, a := range rc.adds {
+				adds := rc.adds
+				if rc.val != nil {
+					// the value stored on this path (a merge of the two folds is resolved to the one this path took)
+					adds = c09AddCalls(p, r, pa.Resolve(rc.val, st), f)
+				}
+				for _, a := range adds {
 					switch f.Name() {
 					case "OnSuccess":
 						if a != "AddSample" {
